@@ -383,6 +383,7 @@ type c08Seq struct {
 	sigs         map[int]map[string]bool // per reader: the source paths its values come along
 	fwd          map[int]bool            // per reader: a forwarding goroutine (merged convert / copy child) is below it
 	inconclusive bool
+	width        map[int]int // per reader: number of sources of a merged reader (nested merges flattened), 1 otherwise
 }
 
 // step executes op on the implementation, appends it (with the observation) to the trace and
@@ -404,7 +405,11 @@ func (s *c08Seq) step(op c08Op) (bool, error) {
 	s.stats["op="+op.K]++
 	if status != "" {
 		head := strings.SplitN(status, ":", 2)[0]
-		s.ctx.Res.Disagree(vh.Disagreement{Signature: fmt.Sprintf("C08:%s:%s:kind=%s", head, op.K, kind),
+		wide := ""
+		if op.K == "recv" && kind == "merge" && s.width[op.R] > 5 {
+			wide = ":over-5-sources" // the reflect.Select path of multiStreamReader.recv
+		}
+		s.ctx.Res.Disagree(vh.Disagreement{Signature: fmt.Sprintf("C08:%s:%s:kind=%s%s", head, op.K, kind, wide),
 			What: fmt.Sprintf("op #%d %s on a %s: %s (the model says the call returns)", len(s.c.Ops)-1, op.K, kind, status),
 			Case: s.c, Model: s.st, Impl: status})
 		s.bad = true
@@ -494,6 +499,20 @@ func c08AllowedFor(op c08Op, rep *c08Reply) string {
 // track keeps, per reader, the set of source paths its values come along (pipe or array id plus the
 // converts passed); two readers with a common path deliver equal values.
 func (s *c08Seq) track(op *c08Op, created []int) {
+	switch op.K {
+	case "pipe", "arr", "conv", "copy":
+		for _, id := range created {
+			s.width[id] = 1
+		}
+	case "merge":
+		if len(op.Rs) >= 2 && len(created) == 1 {
+			n := 0
+			for _, r := range op.Rs {
+				n += s.width[r]
+			}
+			s.width[created[0]] = n
+		}
+	}
 	switch op.K {
 	case "pipe":
 		s.sigs[created[0]] = map[string]bool{fmt.Sprintf("p%d", created[0]): true}
@@ -803,7 +822,7 @@ func (s *c08Seq) writerState(p int) []int {
 
 func c08NewSeq(ctx *vh.Ctx, mode string) *c08Seq {
 	return &c08Seq{ctx: ctx, w: c08NewWorld(), c: &c08Case{Mode: mode, Ops: []c08Op{}}, seq: map[int]int{}, stats: map[string]int{},
-		st: &c08Reply{Ok: true}, sigs: map[int]map[string]bool{}, fwd: map[int]bool{}}
+		st: &c08Reply{Ok: true}, sigs: map[int]map[string]bool{}, fwd: map[int]bool{}, width: map[int]int{}}
 }
 
 func c08RunSeq(ctx *vh.Ctx) error {
@@ -1278,7 +1297,7 @@ func c08RunConc(ctx *vh.Ctx, replay *c08Case) error {
 // ---- entry ----
 
 func runC08(ctx *vh.Ctx) error {
-	ctx.Res.Rule = "random op sequences (Pipe/FromArray/WithConvert/Copy/Merge constructors interleaved with Send, writer Close, Recv, reader Close; 20% of the items sent are error items at any position, of three kinds: opaque / wrapping io.EOF with %w / a type whose Is method claims io.EOF, all of them ordinary elements for the model; only ops the model says cannot block are issued) + tear-down that checks close/EOF propagation; plus the family `late` (every third sequential case: a source is copied, the copies read ahead / lag behind / are closed, and only then an open copy is handed to Merge, Convert or a second Copy; also partially read arrays) and concurrent runs of random trees (goroutine per end). non-trivial = the tree has a copy, merge or convert and at least one Recv; distinct by constructor skeleton and trace length"
+	ctx.Res.Rule = "random op sequences (Pipe/FromArray/WithConvert/Copy/Merge constructors interleaved with Send, writer Close, Recv, reader Close; 20% of the items sent are error items at any position, of three kinds: opaque / wrapping io.EOF with %w / a type whose Is method claims io.EOF, all of them ordinary elements for the model; only ops the model says cannot block are issued) + tear-down that checks close/EOF propagation; plus the family `late` (every third sequential case: a source is copied, the copies read ahead / lag behind / are closed, and only then an open copy is handed to Merge, Convert or a second Copy; also partially read arrays), the family `wide` (every sixth sequential case: a merged reader of 2-12 sources, a subset of which ends one after the other in ascending / descending / random index order with 0-6 marker receives after each end, the others staying open and silent; then every open source is probed with one item that the next Recv must return) and concurrent runs of random trees (goroutine per end). non-trivial = the tree has a copy, merge or convert and at least one Recv; distinct by constructor skeleton and trace length"
 	if ctx.Replay != nil {
 		var c c08Case
 		if err := json.Unmarshal(ctx.Replay, &c); err != nil {
@@ -1302,6 +1321,12 @@ func runC08(ctx *vh.Ctx) error {
 	for i := 0; i < nSeq && time.Since(ctx.Start) < seqBudget; i++ {
 		if i%12 == 5 {
 			if err := c08ArrMerge(ctx); err != nil {
+				return err
+			}
+			continue
+		}
+		if i%6 == 3 { // wide merges whose sources end one after the other, survivors probed (c08_wide.go)
+			if err := c08Wide(ctx); err != nil {
 				return err
 			}
 			continue
